@@ -580,6 +580,11 @@ def mon_C08(case):
                 elif (w[0] == "note" and len(w) > 3 and w[3] == "read" and act is not None and ln.calls == ["SubsUpdate"]
                         and d.startswith(f"received mark of {act[0]}:")):
                     out.append((i, f"C08 [read-raises-recv] a read note raised the received mark of {act[0]} on {t} in memory only: {d}"))
+                elif (i > 0 and case.ops[i - 1].startswith("fail ") and int(case.ops[i - 1].split(" ")[1]) >= 2
+                        and len(ln.calls) == int(case.ops[i - 1].split(" ")[1]) and len(w) > 2 and w[2] == t
+                        and not any(f.startswith("ctrl 2") for sid, f in ln.frames if sid == w[1])):
+                    out.append((i, f"C08 [partial-write:{w[0]}] store call {len(ln.calls)} ({ln.calls[-1]}) of a `{w[0]}` failed after "
+                                   f"{','.join(ln.calls[:-1])} had been written; the request is answered as failed: {d}"))
                 else:
                     out.append((i, f"C08 after `{w[0]}` on {t}: {d}"))
         for t in list(getattr(case, "_c08", {})):
